@@ -28,7 +28,7 @@ type bpCase struct {
 	Late   bool   `json:"observer_joins_late"`
 }
 
-func runBackpressure(t *testing.T, c bpCase) (viol string, blocked bool) {
+func runBackpressure(t *testing.T, c bpCase, replicaOnly bool) (viol string, blocked bool) {
 	defer func() {
 		if r := recover(); r != nil && viol == "" {
 			viol = fmt.Sprintf("goroutines stay blocked forever: %v", r)
@@ -144,12 +144,44 @@ func runBackpressure(t *testing.T, c bpCase) (viol string, blocked bool) {
 				}
 			}
 		}
-		check(R, "the slow reader", true)
-		check(O, "the observer", !c.Late)
-		check(S1, "sender 1", true)
-		check(S2, "sender 2", true)
+		// C01: what each member can reconstruct (entity adds received + own accepted adds) equals
+		// the server's entity set once everything has drained
+		if ss, ok := w.Store().GetByGlobalID(sid); ok {
+			srv := map[uint32]bool{}
+			for _, e := range ss.Entities() {
+				srv[e.ID] = true
+			}
+			for _, obs := range []int{R, O, S1, S2} {
+				if obs == O && c.Late {
+					continue
+				}
+				view := map[uint32]bool{}
+				for _, rx := range w.Inbox(obs) {
+					switch m := rx.M.(type) {
+					case *hagallpb.EntityAddBroadcast:
+						view[m.Entity.GetId()] = true
+					case *hagallpb.EntityAddResponse:
+						view[m.EntityId] = true
+					}
+				}
+				if d := setDiff2(view, srv); d != "" && viol == "" {
+					viol = fmt.Sprintf("after the drain connection %d's replica and the server disagree on the entities:%s", obs, d)
+				}
+			}
+		} else if viol == "" {
+			viol = "the session no longer resolves"
+		}
+		if !replicaOnly {
+			check(R, "the slow reader", true)
+			check(O, "the observer", !c.Late)
+			check(S1, "sender 1", true)
+			check(S2, "sender 2", true)
+		}
 		// every entity add answered exactly once, in order
 		for i, slot := range []int{S1, S2} {
+			if replicaOnly {
+				break
+			}
 			next := 0
 			for _, rx := range w.Inbox(slot) {
 				if rx.T == TEntityAddResp {
@@ -192,9 +224,10 @@ func runBackpressure(t *testing.T, c bpCase) (viol string, blocked bool) {
 
 func TestC02Backpressure(t *testing.T) { backpressureTest(t, "C02") }
 func TestC04Backpressure(t *testing.T) { backpressureTest(t, "C04") }
+func TestC01Backpressure(t *testing.T) { backpressureTest(t, "C01") }
 
 func backpressureTest(t *testing.T, prop string) {
-	col := NewCollector(prop, "Wbp", "wire driver: a session of 3-4 members; one stops reading, two others each pipeline 1-900 requests (custom messages, entity adds, or alternating) from their own goroutines, so that more than 512 relays queue up for the slow reader and the senders' connection loops are held up; the slow reader then resumes; at quiescence every recipient must hold every relay of each sender exactly once and in that sender's request order, every entity add must be answered exactly once and in order, nothing may be left behind; non-trivial = distinct case in which at least one sender was actually held up by back-pressure")
+	col := NewCollector(prop, "Wbp", "wire driver: a session of 3-4 members; one stops reading, two others each pipeline 1-900 requests (custom messages, entity adds, or alternating) from their own goroutines, so that more than 512 relays queue up for the slow reader and the senders' connection loops are held up; the slow reader then resumes; at quiescence every member's replica of the entity set must equal the server's (C01), every recipient must hold every relay of each sender exactly once and in that sender's request order, every entity add must be answered exactly once and in order, nothing may be left behind; non-trivial = distinct case in which at least one sender was actually held up by back-pressure")
 	t.Cleanup(col.Write)
 	if rp := os.Getenv("VERIF_REPLAY"); rp != "" {
 		var c bpCase
@@ -202,7 +235,7 @@ func backpressureTest(t *testing.T, prop string) {
 			t.Skipf("replay file not usable: %v", err)
 		}
 		for i := 0; i < 20; i++ {
-			if v, _ := runBackpressure(t, c); v != "" {
+			if v, _ := runBackpressure(t, c, prop == "C01"); v != "" {
 				t.Fatalf("replay violates %s: %s", prop, v)
 			}
 		}
@@ -214,7 +247,7 @@ func backpressureTest(t *testing.T, prop string) {
 			c.M[i] = pick(rt, "m", []int{1, 40, 300, 520, 600, 900})
 			c.Kind[i] = uni(rt, "kind", 3)
 		}
-		v, blocked := runBackpressure(t, c)
+		v, blocked := runBackpressure(t, c, prop == "C01")
 		col.Case(fmt.Sprintf("%+v", c), v == "" && blocked, map[string]int{"sender_held_up": b2i(blocked)}, func() any { return c })
 		if v != "" {
 			col.Violations++
